@@ -69,6 +69,8 @@ def field_constraints(rng, col, rex_pool=None):
         for kind, ext in (('min', lo), ('max', hi)):
             if r() < 0.7:
                 b = rng.choice(_around(rng, ext))
+                if nums and r() < 0.2:
+                    b = rng.choice(nums)        # a bound ON some record, with other records possibly beyond it
                 if isinstance(b, float) and b != b:
                     b = 0.0
                 if isinstance(b, float) and b in (float('inf'), float('-inf')):
@@ -93,8 +95,10 @@ def field_constraints(rng, col, rex_pool=None):
                 except OverflowError:
                     pass
                 gran = rng.choice(['date', 'second', 'micro'])
+                if ds and r() < 0.25:
+                    base, gran = rng.choice(ds)[0], 'micro'      # a bound ON some record
                 s = _fmt_dt(base, 0, gran, tz=col['kind'] in F.TZ_KINDS)
-                p = rng.choice([None, None, None, 'closed', 'fuzzy'])
+                p = rng.choice([None, None, None, 'closed', 'fuzzy', 'open'])
                 out[kind] = s if p is None else {'value': s, 'precision': p}
     else:
         ss = CS.nonnull_strings(col)
